@@ -111,6 +111,10 @@ func tryReplay(e *Engine, ob *Obligation, extra map[string]interface{}) bool {
 			return true
 		}
 	}
+	// no hand-written witness: try to build one from the solver's counterexample (R1)
+	if oblStatus(ob) == "failed" && !ob.Structural {
+		return genReplay(e, ob, extra)
+	}
 	return false
 }
 
